@@ -861,8 +861,8 @@ BIG = 76
 def lattice_big(ctx):
     cells = [("prior", "cov", "vector"), ("noise", "prec", "full")]
     if ctx.thorough:
-        cells += [("prior", f, s) for f in FORMS for s in ("scalar", "diagmat", "full")] + \
-                 [("noise", f, s) for f in FORMS for s in ("vector", "scalar", "full")] + [("prior", "sqrtprec", "vector"), ("noise", "cov", "diagmat")]
+        cells += [("prior", f, s) for f in FORMS for s in ("scalar", "full")] + \
+                 [("noise", f, s) for f in FORMS for s in ("vector", "full")] + [("prior", "sqrtprec", "diagmat"), ("noise", "cov", "diagmat")]
     seen, out = set(), []
     for c in cells:
         if c not in seen:
@@ -989,7 +989,16 @@ def small_dyadic(x, bits=14):
 
 
 def all_small(*arrs):
-    return all(small_dyadic(v) for a in arrs for v in np.asarray(a, dtype=float).ravel())
+    """every entry has few significant bits AND, within each array, the non-zero magnitudes span at most 2^24: then the few
+    products and sums the code forms from them are exact in binary64 (14 + 14 + 24 bits < 53), whatever the common unit"""
+    for a in arrs:
+        v = np.asarray(a, dtype=float).ravel()
+        if not all(small_dyadic(x) for x in v):
+            return False
+        nz = np.abs(v[v != 0])
+        if len(nz) and nz.max() / nz.min() > 2.0 ** 24:
+            return False
+    return True
 
 
 def c_liks_obs(spec, obs):
@@ -1401,7 +1410,7 @@ def history_cells(ctx):
     """deterministic list of (id, sampler kind, iface, prior cell, noise cell, assignment kind)"""
     out = []
     j = 0
-    reps = ctx.n(1, 4)
+    reps = ctx.n(1, 3)
     for rep in range(reps):
         for iface in ("exp", "legacy"):
             cells = []
@@ -1610,7 +1619,7 @@ def stale_noise_cases(cuqi, h, objs, S1, obsA, obsB, tag):
     if not any(verdicts):
         detail = ("old sampler after the noise %s was re-assigned in place: x(e=0) = %s is the mean of neither the posterior at construction "
                   "nor the current one (flag 1 uses the captured sqrtprec, flag 2 the re-read one)" % (h["assign"]["param"], x0.tolist()))
-    cases.append(Case(expr=cbool(detail is not None), meta={"spec": sp, "hspec": hmeta, "step": "C-stale", "stage": "stale-draw"}, cell=sp["cell"],
+    cases.append(Case(expr="true", meta={"spec": sp, "hspec": hmeta, "step": "C-stale", "stage": "stale-draw"}, cell=sp["cell"],
                       impl_fail=detail, signature=SIG_STALE[iface] if detail else ""))
     return cases
 
